@@ -287,6 +287,26 @@ async def run_async(ctx, res, only=None):
                 raw_req = v + rng.choice([5, -5, 3, -3])           # inside the wide bounds, outside the narrow ones
                 handle = rng.choice(HANDLES)
                 cases.append(await rereport_case(w, tables, tname, kind, label, row, first, second, raw_req, handle, st, res))
+            # the thermostat profile slot reported undefined and then defined again: the device drops the parameter
+            # and later builds a NEW object; an object the client kept from before is orphaned (known finding F9)
+            prow = next((r for r in rows_of(product, tables) if r[1] == "profile"), None)
+            if prow is not None:
+                tname, kind, label, row = prow
+                sizes = [r["size"] for r in tables["tables"]["thermostat"]]
+                await feed_triple(w, tables, tname, kind, row, (2, 0, 5), st)
+                dev = w.device(label)
+                kept = dev.data[row["name"]]
+                await w.thermostat_params(pd.thermostat_payload(0, 1, None, [[(0, 0, 5)]], sizes))
+                await feed_triple(w, tables, tname, kind, row, (2, 0, 3), st)
+                live = dev.data[row["name"]]
+                held = (live.values.value, live.values.min_value, live.values.max_value)
+                r, frames = await pd.run_set(w, lambda: kept.set(5, retries=1, timeout=0.01))
+                after = live.values.value
+                obs, raised, tx = observe(kind, row, r, frames, held, after)
+                res.count("rereport:profile-undefined-then-defined:" + ("same object" if kept is live else "new object"))
+                cases.append(dict(table=tname, row=row["name"], kind=kind, conv=pd.conv_words(kind, row), triple=[2, 0, 3], value=5,
+                                  via="parameter.set on an object kept across an undefined report", obs=obs, raised=raised, tx=tx,
+                                  after=after, result=list(r), finding="F9", orphan=True))
         elif only.get("reports"):
             for tname, kind, label, row in rows_of(product, tables):
                 if (only["table"], only["row"]) == (tname, row["name"]):
@@ -327,7 +347,10 @@ async def run_async(ctx, res, only=None):
         if c.get("verdict", "pass") != "pass":
             res.fail("spec", inp, f"C06.spec raw={c['raw']} triple={c['triple']}",
                      dict(result=c["result"], transmitted=c["tx"], value_after=c["after"]),
-                     "out-of-range request not refused inertly, or a transmitted set request outside the bounds (C06.spec)")
+                     "out-of-range request not refused inertly, or a transmitted set request outside the bounds (C06.spec)",
+                     **(dict(finding=c["finding"]) if c.get("finding") else {}))
+        if c.get("orphan"):
+            continue        # an orphaned object is not the report/set machine's parameter: judged by the statement only
         if c["obs"] != c["model"]:
             res.fail("corr", inp, c["model"], c["obs"], "Parameter.set front differs from the model (outcome, value after, transmitted raws)")
         if len(res.samples) < 8 and c["obs"].split(":")[0].split()[0] in ("reject", "transmit", "typeerror", "noop"):
